@@ -59,3 +59,65 @@ Theorem C16_refuted_lost_wakeup :
     delivered i < hi st /\ ienabled i = false.
 Proof. exact lost_wakeup. Qed.
 Print Assumptions C16_refuted_lost_wakeup.
+
+(* ------------------------------------------------------------------------
+   maildir: IDLE is a poll loop (Sync/MaildirIdle.v): update_selected waits on
+   the `done` event with a timeout of one period (P ticks of a virtual clock)
+   and rescans.  Labels: MChange (another session changes the mailbox -- no
+   notification of any kind exists in the model), MTick (time passes; only
+   while the idler has nothing to run), MI (one step of the idler), MDone ok
+   (the client's line was read), MWake (the wait returns early). *)
+From PV Require Import Sync.MaildirIdle Sync.MaildirIdleProofs.
+
+(* in any reachable state with IDLE not being ended: every schedule without
+   further change and without client input that contains P + 6 ticks or idler
+   steps ends with every change completely written to the idler.  No wake-up
+   is needed (so a lost set() cannot matter), spurious ones do no harm. *)
+Theorem C16_maildir_poll_progress : forall P sched0 st sched st',
+  mexec P minit sched0 = Some st -> mdone st = None ->
+  forallb is_quiet sched = true -> mexec P st sched = Some st' ->
+  P + 6 <= work sched -> mdeliv st' = mhi st'.
+Proof. exact poll_progress. Qed.
+Print Assumptions C16_maildir_poll_progress.
+
+(* ... and within one poll period of virtual time: as long as something is
+   unreported, at most P ticks have passed since the state was reached *)
+Theorem C16_maildir_poll_period : forall P sched0 st sched st',
+  mexec P minit sched0 = Some st -> mdone st = None ->
+  forallb is_quiet sched = true -> mexec P st sched = Some st' ->
+  mdeliv st' <> mhi st' -> mticks sched <= P.
+Proof. exact poll_period. Qed.
+Print Assumptions C16_maildir_poll_period.
+
+(* the client's line read while the update loop exists: after at most 4 idler
+   steps -- which are always possible, no tick is needed -- IDLE has ended,
+   with OK iff the line was DONE, whatever else happens meanwhile *)
+Theorem C16_maildir_done_ok : forall P sched0 st ok st1 sched st',
+  mexec P minit sched0 = Some st -> mp st <> MCont -> mdone st = None ->
+  (forall b, mp st <> MEnd b) ->
+  mstep P st (MDone ok) = Some st1 -> mexec P st1 sched = Some st' ->
+  (4 <= isteps sched -> mp st' = MEnd ok) /\
+  (mp st' <> MEnd ok -> ienabled st' = true).
+Proof. exact done_ends. Qed.
+Print Assumptions C16_maildir_done_ok.
+
+(* nothing is reported twice and nothing skipped: the non-empty batches
+   written so far are adjacent intervals of changes ending at [mdeliv] *)
+Theorem C16_maildir_no_duplicates : forall P sched st,
+  mexec P minit sched = Some st -> chained (mout st) (mdeliv st) /\ mdeliv st <= mhi st.
+Proof. exact no_duplicates. Qed.
+Print Assumptions C16_maildir_no_duplicates.
+
+(* _AsyncioEvent.or_event: the new event is not set (even when a constituent
+   already is -- why the dict backend re-checks before waiting) and leaves the
+   others alone; set() of either constituent afterwards sets it; clear() of an
+   event touches no other event *)
+Theorem C16_or_event_spec : forall s a b,
+  length (elisten s) = length (eflag s) -> a < length (eflag s) -> b < length (eflag s) ->
+  let '(s1, o) := ev_or s [a; b] in
+  ev_is_set s1 o = false /\
+  (forall e, e < length (eflag s) -> ev_is_set s1 e = ev_is_set s e) /\
+  ev_is_set (ev_set s1 a) o = true /\ ev_is_set (ev_set s1 b) o = true /\
+  (forall e, e <> o -> ev_is_set (ev_clear s1 o) e = ev_is_set s1 e).
+Proof. exact or_event_spec. Qed.
+Print Assumptions C16_or_event_spec.
